@@ -68,6 +68,9 @@ func H_C16_fc() {
 	if !ok {
 		return
 	}
+	// the Weights() pointers are obtained ONCE, before any Forward, and used for every later access
+	// and replacement: they must keep addressing the tensors the layer uses
+	ws := fc.Weights()
 	tx := vrt.Bool("tx")
 	x, xe := mk("x", []int{B, F}, tx)
 	y, err := fc.Forward(x)
@@ -114,7 +117,6 @@ func H_C16_fc() {
 			gb[o] = gb[o] / float64(B)
 		}
 	}
-	ws := fc.Weights()
 	checkGrad("FC d/dW", *ws[0].Value, true, []int{O}, gw)
 	checkGrad("FC d/dB", *ws[1].Value, true, []int{O}, gb)
 	checkGrad("FC d/dx", x, tx, []int{B, F}, gx)
